@@ -521,6 +521,16 @@ func (p *cparser) isQuant() bool {
 // variable v inside body as an index has the form X[v] for one and the same X
 // (which does not mention v); nil otherwise.
 func singleIndexedSlice(body CExpr, v string) CExpr {
+	x, ok := indexedSlices(body, v)
+	if !ok {
+		return nil
+	}
+	return x
+}
+
+// indexedSlices returns the first expression X used as X[v] outside old(...) in
+// body, and whether it is the only indexed slice (no other X'[v], no old(..v..)).
+func indexedSlices(body CExpr, v string) (CExpr, bool) {
 	var found CExpr
 	ok := true
 	var walk func(e CExpr)
@@ -628,8 +638,5 @@ func singleIndexedSlice(body CExpr, v string) CExpr {
 		}
 	}
 	walk(body)
-	if !ok {
-		return nil
-	}
-	return found
+	return found, ok
 }
